@@ -15,7 +15,8 @@ def run(ctx):
         scen[0].pop("tid", None)
     else:
         scen = ctx.gen("Gen_C02", "Gen_C02")
-        scen = scen[ctx.seed % 3::3] if ctx.quick else scen
+        if ctx.quick:
+            scen = ctx.stratified(scen, 1.0 / 3)
     traces = ctx.drive("c02", scen, timeout=3000)
     for t in traces:
         t["has_free"] = t.get("free") is not None
